@@ -58,7 +58,8 @@ LEVEL_TEXT = ("Lean proofs for all inputs: hybrid-36 decode(encode n w) = n for 
               "map incl. hybrid-36 ids; C07_cryst1_roundtrip; C07_altloc_first / C07_altloc_occupancy: the altloc filters keep exactly the "
               "rows without id and those of the first / highest-occupancy id per residue; C07_file_roundtrip composes CRYST1, the model "
               "split and the per-record round trip for a whole written stack at record level; C07_h36_decode_unvalidated_defect records that the "
-              "decoder does not validate characters (known finding); regenerated ATOM and CRYST1 column tables. "
+              "decoder does not validate characters (known finding); regenerated ATOM and CRYST1 column tables and (C07_gen_*_logic, "
+              "C07_gen_defaults) the guards, literals, step order, defaults and error classes of writer, reader, check and hybrid36.pyx. "
               "Partial: box vectors <-> cell parameters (float32 trigonometry), element guessing, and the final packing of the per-record "
               "results into numpy arrays (mapMR in readPdb) are tied by correspondence and oracle only.")
 LEVEL_NOTE = "float formatting/parsing, numpy chararray and BondList semantics are modelled, not verified; see notes/C07.md"
@@ -438,6 +439,8 @@ def gen_logic(tree, psrc, paths):
                     terms.append(_norm(b))
             flat(n.slice)
             facts["carriable"] = terms
+        if isinstance(n, ast.Call) and isinstance(n.func, ast.Attribute) and n.func.attr == "_set_bonds":
+            facts["setBondsArgs"] = [_norm(a) for a in n.args]
         if isinstance(n, ast.Assign) and ast.unparse(n.targets[0]) == "hetero_indices":
             facts["heteroIndices"] = _norm(n.value)
         if isinstance(n, ast.Call) and isinstance(n.func, ast.Attribute) and n.func.attr == "astype" and ast.unparse(n.args[0]) == "np.int64":
@@ -530,7 +533,7 @@ def gen_logic(tree, psrc, paths):
     pyx = {name: _pyx_function(psrc, name) for name in
            ("encode_hybrid36", "_encode_base36", "decode_hybrid36", "_decode_base36", "max_hybrid36_number")}
     required = ["recordNames", "atomWrap", "resWrap", "defaultTexts", "alignRule", "chargeText", "isStack", "endmdl", "carriable", "heteroIndices",
-                "int64Casts", "solventList", "conectPerRecord", "conectParts", "conectRange", "conectSlices", "bondMapInit", "padWidth", "heteroTest",
+                "int64Casts", "setBondsArgs", "solventList", "conectPerRecord", "conectParts", "conectRange", "conectSlices", "bondMapInit", "padWidth", "heteroTest",
                 "chargeSigns", "chargeBlank", "chargeReversed", "altlocModes", "extraFields", "altlocBest", "altlocIdOrder"]
     missing = [k for k in required if not facts.get(k)]
     if missing:
@@ -554,6 +557,7 @@ def gen_logic(tree, psrc, paths):
            f"def carriable : List String := {_llist(facts['carriable'])}",
            f"def heteroIndices : String := {_lstr(facts['heteroIndices'])}",
            f"def int64Casts : List String := {_llist(facts['int64Casts'])}",
+           f"def setBondsArgs : List String := {_llist(facts['setBondsArgs'])}",
            f"def solventList : List String := {_llist(facts['solventList'])}",
            f"def conectPerRecord : Nat := {facts['conectPerRecord']}",
            "def conectParts : List (List String) := [" + ", ".join(_llist(x) for x in sorted(facts["conectParts"])) + "]",
